@@ -248,6 +248,54 @@ func CPUTime() float64 {
 	return float64(ru.Utime.Sec) + float64(ru.Utime.Usec)/1e6 + float64(ru.Stime.Sec) + float64(ru.Stime.Usec)/1e6
 }
 
+// Calibrate returns the process CPU time this machine needs, right now, to
+// allocate 64 MB of fresh memory four times and copy it once each: the kind of
+// work a size amplifier legitimately does. On an idle machine it is around
+// 0.1 s; on an overcommitted host (slow page faults) it has been seen above 5 s.
+func Calibrate() float64 {
+	t0 := CPUTime()
+	var keep []byte
+	for i := 0; i < 4; i++ {
+		a := make([]byte, 64<<20)
+		for j := 0; j < len(a); j += 4096 {
+			a[j] = byte(j)
+		}
+		b := make([]byte, len(a))
+		copy(b, a)
+		keep = b
+	}
+	_ = keep
+	return CPUTime() - t0
+}
+
+// ConfirmSlow decides whether a case whose first run used `first` seconds of
+// CPU time (above `bound`) is slow because of the code or because of the
+// machine: the case is run again up to three times, with a calibration run
+// before each. It is confirmed (a verdict) only if every run exceeded the
+// bound and the fastest run is more than 40 times the fastest calibration;
+// it is inconclusive if every run exceeded the bound but the machine itself
+// was that slow; otherwise the first measurement was noise.
+func ConfirmSlow(first, bound float64, run func() float64) (confirmed, inconclusive bool, best, cal float64) {
+	best = first
+	cal = Calibrate()
+	for i := 0; i < 3; i++ {
+		dt := run()
+		if dt < best {
+			best = dt
+		}
+		if best <= bound {
+			return false, false, best, cal
+		}
+		if c := Calibrate(); c < cal {
+			cal = c
+		}
+	}
+	if best > 40*cal {
+		return true, false, best, cal
+	}
+	return false, true, best, cal
+}
+
 var addrRE = regexp.MustCompile(`0x[0-9a-f]{6,}`)
 
 // Clean removes what legitimately differs between two runs of a program from a
